@@ -342,6 +342,7 @@ class Prov:
         self.loops = {}
         self.lists = {}  # list id -> [(term, event)]
         self.localfns = {}
+        self._adopt_ctx = []
         self._uid = 0
 
     # ------------------------------------------------------------------ entry points
@@ -585,6 +586,8 @@ class Prov:
                     assigned.add(n.id)
 
         own_carried = dict(L.carried)  # an adopted generator loop already carries the generator's own variables
+        extra_ctx = list(getattr(self, "_adopt_ctx", ())) if adopted is not None else []
+        self._adopt_ctx = []
 
         def run_body(head):
             body = head.copy()
@@ -595,6 +598,7 @@ class Prov:
                     inits[v] = head.env[v]
                     body.env[v] = ("mu", L.id, v)
             body.ctx.append(("loop", L.id))
+            body.ctx.extend(extra_ctx)
             self.assign(node.target, elem, body, fr, node)
             self.block(node.body, body, fr)
             if body.dead in ("continue", "break"):
@@ -608,6 +612,7 @@ class Prov:
 
         mark = (len(self.events), self._uid)
         list_lens = {k: len(v) for k, v in self.lists.items()}
+        frame_marks = (len(fr.yields), len(fr.returns), len(fr.ret_states))
         body = run_body(st)
         if not body.dead and (body.epoch != st.epoch or body.heap != st.heap):
             # the body changes attributes of self: what it reads at its head is the join of the state
@@ -618,6 +623,9 @@ class Prov:
                     del table[k]
             for k, n in list_lens.items():
                 del self.lists[k][n:]
+            del fr.yields[frame_marks[0]:]
+            del fr.returns[frame_marks[1]:]
+            del fr.ret_states[frame_marks[2]:]
             self._uid = mark[1]
             head = st.copy()
             head.heap, head.epoch = self.merge_heaps([(st.heap, st.epoch), (body.heap, body.epoch)])
@@ -630,7 +638,38 @@ class Prov:
         if node.orelse:
             self.block(node.orelse, st, fr)
 
+    def counting_while(self, node, st):
+        """``while i < N: <body>; i += 1`` (i assigned nowhere else in the body, no ``continue``) is ``for i in range(i, N)``.
+        Returns the equivalent ast.For or None."""
+        t = node.test
+        if not (isinstance(t, ast.Compare) and len(t.ops) == 1 and isinstance(t.ops[0], ast.Lt) and isinstance(t.left, ast.Name)):
+            return None
+        var = t.left.id
+        if var not in st.env or node.orelse or not node.body:
+            return None
+        last = node.body[-1]
+        if not (isinstance(last, ast.AugAssign) and isinstance(last.op, ast.Add) and isinstance(last.target, ast.Name) and last.target.id == var
+                and isinstance(last.value, ast.Constant) and last.value.value == 1):
+            return None
+        for sub in node.body[:-1]:
+            for n in ast.walk(sub):
+                if isinstance(n, ast.Continue):
+                    return None
+                if isinstance(n, ast.Name) and n.id == var and isinstance(n.ctx, (ast.Store, ast.Del)):
+                    return None
+        for n in ast.walk(t.comparators[0]):
+            if isinstance(n, ast.Name) and n.id == var:
+                return None
+        rng = ast.Call(func=ast.Name(id="range", ctx=ast.Load()), args=[ast.Name(id=var, ctx=ast.Load()), t.comparators[0]], keywords=[])
+        loop = ast.For(target=ast.Name(id=var, ctx=ast.Store()), iter=rng, body=list(node.body[:-1]) or [ast.Pass()], orelse=[])
+        ast.copy_location(loop, node)
+        ast.fix_missing_locations(loop)
+        return loop
+
     def st_While(self, node, st, fr):
+        as_for = self.counting_while(node, st)
+        if as_for is not None and "range" not in st.env:
+            return self.st_For(as_for, st, fr)
         self.ev(node.test, st, fr)
         L = self.new_loop("while", ("opq", "while"), node, fr, st)
         body = st.copy()
@@ -901,10 +940,39 @@ class Prov:
         return ("opq", "sent")
 
     def ev_YieldFrom(self, e, st, fr):
+        # ``yield from gen(...)`` with a repo-local generator: its yields are this generator's yields
+        if isinstance(e.value, ast.Call):
+            tgt, recv, callee = self.resolve_callee(e.value, st, fr)
+            if tgt is not None and tgt.func is not None and astq.is_generator(tgt.func) and tgt.kind in ("method", "super", "func", "localfn") \
+                    and tgt.name not in self.no_inline and fr.depth < self.max_depth and not self.on_stack(tgt.func, fr):
+                args, kwargs = self.eval_args(e.value, st, fr)
+                if tgt.kind == "localfn":
+                    sub = Frame(tgt.module, tgt.func, fr.cls, fr.defcls, fr.depth + 1, fr)
+                else:
+                    sub = self.callee_frame(tgt, fr)
+                skip_self = tgt.kind in ("method", "super") and not sub.static
+                bound = self.bind_params(tgt.func, args, kwargs, skip_self, sub)
+                if bound is not None:
+                    ev = self.emit("inline", tgt.name, e.value, fr, st)
+                    ev.target, ev.recv, ev.args, ev.kwargs, ev.bound = tgt, recv, tuple(args), kwargs, bound
+                    depth = len(st.ctx)
+                    st.ctx.append(("inline", ev.id, sub.qual()))
+                    sub.yields = fr.yields  # delegate: same consumer
+                    sub_st = St()
+                    sub_st.heap, sub_st.epoch, sub_st.ctx = st.heap, st.epoch, st.ctx
+                    sub_st.env = dict(self.localfns_env(tgt.func)) if tgt.kind == "localfn" else {}
+                    sub_st.env.update(bound)
+                    if skip_self:
+                        sub_st.env[astq.param_names(tgt.func)[0]] = SELF
+                    self.block(tgt.func.body, sub_st, sub)
+                    del st.ctx[depth:]
+                    st.heap, st.epoch = sub_st.heap, sub_st.epoch
+                    ev.ret = ("opq", "generator-result")
+                    return ev.ret
         v = self.ev(e.value, st, fr)
         ev = self.emit("yield", fr.fn.name, e, fr, st)
-        ev.value = ("elem", v, 0)
-        fr.yields.append((("opq", "yield-from"), tuple(st.ctx) + (("loop", 0),), ev))
+        ev.value = ("opq", "yield-from", v)
+        fr.yields.append((("opq", "yield-from"), tuple(st.ctx) + (("opaque-delegate",),), ev))
         if fr.parent is None:
             st.heap = {}
             st.epoch = ev.id + 1
@@ -1016,10 +1084,11 @@ class Prov:
                     st.heap, st.epoch = sub_st.heap, sub_st.epoch
                     if len(sub.yields) == 1:
                         val, yctx, yev = sub.yields[0]
-                        rel = [c for c in yctx[base_ctx:] if not (c[0] == "guard" and c[3] == "raise")]
-                        if len(rel) == 1 and rel[0][0] == "loop":
+                        rel = [c for c in yctx[base_ctx:] if not (c[0] == "guard" and c[3] == "raise") and c[0] != "inline"]
+                        if rel and rel[0][0] == "loop" and rel[0][1] in self.loops and all(c[0] in ("if", "guard") for c in rel[1:]):
                             L = self.loops[rel[0][1]]
                             ev.ret = ("gen", L.id)
+                            self._adopt_ctx = list(rel[1:])  # the consumer's body runs only where the generator yields
                             return ("gen", L.id), (L, val)
                     ev.ret = ("opq", "generator:" + tgt.name)
                     return ev.ret, None
@@ -1239,7 +1308,7 @@ class Prov:
                 elif e.kind == "call" and e.target is not None and e.target.kind in ("method", "super"):
                     if not p.method_is_pure(cls, e.target):
                         pure = False
-                elif e.kind == "yield":
+                elif e.kind == "yield" and e.frame.parent is None:
                     pure = False
         except (AnalysisError, RecursionError):
             pure = False
@@ -1323,6 +1392,8 @@ class Prov:
             if nm == "iter" and len(args) == 1:
                 return args[0]
             if nm == "len" and len(args) == 1:
+                if isinstance(args[0], tuple) and args[0][:1] in (("tuple",), ("list",)):
+                    return ("const", len(args[0][1]))
                 return ("len", args[0])
             if nm == "hasattr" and len(args) == 2:
                 return ("hasattr", args[0], args[1])
